@@ -91,7 +91,7 @@ CHECKS.update({
 
 CHECKS.update({
     "C06": dict(
-        text="for each of 22 derive(Serialize, Deserialize) types covering every documented mapping row, every value of the cartesian product of small hostile field domains, and every string <=3/4 over 14 markup/blank characters in each payload position of each type, x 3 quote levels x indent x expand-empty x root renaming: to_string succeeds and from_str and from_reader of the output equal the value; both feature builds",
+        text="for each of 23 derive(Serialize, Deserialize) types covering every documented mapping row, every value of the cartesian product of small hostile field domains, and every string <=3/4 over 14 markup/blank characters in each payload position of each type, x 3 quote levels x indent x expand-empty x root renaming: to_string succeeds and from_str and from_reader of the output equal the value; both feature builds",
         note="the type family and the value domains are fixed; documented exclusions honoured (leading/trailing blanks in element/text strings, empty simple-list items, prefixed names); open known findings F5 (empty string in a text position without default) and F6 (blank inside a $text list item); defect F9 found by this check was repaired (fix: commit a5f8907)",
         technique="bounded-exhaustive enumeration of values of a fixed type family x serializer configurations through the real serializer and deserializer (round-trip oracle)",
     ),
